@@ -27,7 +27,7 @@ func init() {
 	})
 }
 
-// c10Huge (thorough tier only): notation round trip of a list of 2^20 + 5 and 2^21 + 65537 IDs.
+// c10Huge: notation round trip of a list of 2^20 + 5 IDs (both tiers) and of 2^21 + 65537 IDs (thorough tier).
 func c10Huge(c *core.Case) {
 	r := c.R
 	n := []int{1<<20 + 5, 1<<21 + 65537}[c.I]
@@ -71,7 +71,7 @@ func c10Huge(c *core.Case) {
 
 func runC10(c *core.Case) {
 	r := c.R
-	if c.Tier == "thorough" && c.I < 2 {
+	if c.I == 0 || (c.Tier == "thorough" && c.I == 1) {
 		c10Huge(c)
 		return
 	}
